@@ -301,11 +301,21 @@ def applies(u, v, T):
     k = T[0]
     if k in ("id", "case"):
         return True
-    if k == "norm" and T[1] not in ("default-port", "www", "m", "mobile", "amp-label", "www2"):
-        return True
     a, b = std(u), std(v)
     if a is None or b is None:
         return False
+    if k == "norm":
+        n = T[1]
+        if n in ("trailing-slash", "index", "fragment", "tracking", "order", "ampersand", "escape", "unescape", "escape-all", "unescape-all"):
+            return same_but(a, b, "path", "query", "fragment")
+        if n in ("scheme", "no-scheme"):
+            return same_but(a, b, "scheme")
+        if n == "userinfo":
+            return same_but(a, b, "user", "password")
+        if n in ("whitespace", "control"):
+            return same_but(a, b)
+        if n == "hex-case":
+            return True
     if k == "norm" and T[1] == "default-port":
         return same_but(a, b, "port") and a["port"] is None and b["port"] in (80, 443) and bool(a["host"])
     if k == "norm":
